@@ -440,6 +440,12 @@ func cmdXform(args []string) int {
 			add([]string{"LZP", "ROLZ", "ROLZX"}[int(k)%3], fmt.Sprintf("dist:%d", v), v+100+20000, -1, "NONE")
 		}
 	}
+	// blocks that start inside a multi-byte character (0..3 continuation bytes first) or with more stray continuation bytes
+	for v := 0; v <= 6; v++ {
+		for ti, t := range []string{"UTF", "TEXT+UTF", "TEXT", "UTF+LZ"} {
+			add(t, fmt.Sprintf("contlead:%d", v), []int{10000, 65536, 4096}[(v+ti)%3], -1, []string{"NONE", "FPAQ"}[ti%2])
+		}
+	}
 	// random single transforms and chains (sequence level)
 	for i := 0; i < *n; i++ {
 		t := pick(rnd, transformNames)
